@@ -265,6 +265,7 @@ class SimFS:
         self.files = {}
         self.bufsize = 8192
         self.handles = []
+        self.fds = {}
         self.leaked_closed = 0
         self.reset_op()
         self.fault_counts = {}
@@ -304,6 +305,38 @@ class SimFS:
         if kind not in self.op_fired:
             self.op_fired.append(kind)
 
+    # -- descriptor level (os.open / os.fdopen / open(fd)) ------------------
+    FD_BASE = 1_000_000
+
+    def os_open(self, path, flags, mode=0o777):
+        exists = path in self.files
+        if flags & os.O_CREAT:
+            if exists and flags & os.O_EXCL:
+                raise FileExistsError(errno.EEXIST, 'File exists', path)
+            if not exists:
+                self.files[path] = bytearray()
+        elif not exists:
+            raise FileNotFoundError(
+                errno.ENOENT, 'No such file or directory', path)
+        if flags & os.O_TRUNC and (flags & (os.O_WRONLY | os.O_RDWR)):
+            del self.files[path][:]
+        fd = self.FD_BASE + len(self.fds)
+        while fd in self.fds:
+            fd += 1
+        self.fds[fd] = (path, flags)
+        return fd
+
+    def open_fd(self, fd, mode='r', buffering=-1, encoding=None, errors=None,
+                newline=None, closefd=True, opener=None):
+        path, flags = self.fds.pop(fd)
+        acc = flags & (os.O_WRONLY | os.O_RDWR)
+        readable = acc != os.O_WRONLY
+        writable = acc != 0
+        raw = SimRaw(self, path, self.files[path], readable, writable,
+                     bool(flags & os.O_APPEND))
+        return self._wrap(raw, mode, buffering, encoding, errors, newline,
+                          readable, writable)
+
     def put(self, path, data):
         self.files[path] = bytearray(data)
 
@@ -337,6 +370,12 @@ class SimFS:
         writable = m != 'r' or plus
         raw = SimRaw(self, path, self.files[path], readable, writable,
                      m == 'a')
+        return self._wrap(raw, mode, buffering, encoding, errors, newline,
+                          readable, writable)
+
+    def _wrap(self, raw, mode, buffering, encoding, errors, newline,
+              readable, writable):
+        binary = 'b' in mode
         if buffering == 0:
             if not binary:
                 raise ValueError("can't have unbuffered text I/O")
@@ -362,16 +401,82 @@ class _Installed:
 def _is_sim(file):
     if isinstance(file, (str, os.PathLike)):
         try:
-            return os.fspath(file).startswith(SIM_ROOT)
+            p = os.fspath(file)
+            return p.startswith(SIM_ROOT) or p == SIM_ROOT[:-1]
         except Exception:
             return False
     return False
 
 
 def _sim_open(file, *a, **k):
-    if _Installed.fs is not None and _is_sim(file):
-        return _Installed.fs.open(os.fspath(file), *a, **k)
+    fs = _Installed.fs
+    if fs is not None:
+        if _is_sim(file):
+            return fs.open(os.fspath(file), *a, **k)
+        if isinstance(file, int) and file in fs.fds:
+            return fs.open_fd(file, *a, **k)
     return _real_open(file, *a, **k)
+
+
+_real_os_open = os.open
+_real_os_close = os.close
+_real_os_stat = os.stat
+_real_os_remove = os.remove
+_real_os_unlink = os.unlink
+_real_os_replace = os.replace
+_real_os_rename = os.rename
+
+
+def _sim_os_stat(path, *a, **k):
+    fs = _Installed.fs
+    if fs is not None and _is_sim(path):
+        p = os.fspath(path)
+        if p in fs.files:
+            return os.stat_result((0o100644, hash(p) & 0xffff, 1, 1, 0, 0,
+                                   len(fs.files[p]), 0, 0, 0))
+        if p.rstrip('/') == SIM_ROOT.rstrip('/'):
+            return os.stat_result((0o040755, 1, 1, 2, 0, 0, 0, 0, 0, 0))
+        raise FileNotFoundError(errno.ENOENT, 'No such file or directory', p)
+    return _real_os_stat(path, *a, **k)
+
+
+def _sim_os_remove(path, *a, **k):
+    fs = _Installed.fs
+    if fs is not None and _is_sim(path):
+        p = os.fspath(path)
+        if p not in fs.files:
+            raise FileNotFoundError(
+                errno.ENOENT, 'No such file or directory', p)
+        del fs.files[p]
+        return None
+    return _real_os_remove(path, *a, **k)
+
+
+def _sim_os_replace(src, dst, *a, **k):
+    fs = _Installed.fs
+    if fs is not None and _is_sim(src) and _is_sim(dst):
+        s, d = os.fspath(src), os.fspath(dst)
+        if s not in fs.files:
+            raise FileNotFoundError(
+                errno.ENOENT, 'No such file or directory', s)
+        fs.files[d] = fs.files.pop(s)
+        return None
+    return _real_os_replace(src, dst, *a, **k)
+
+
+def _sim_os_open(path, flags, mode=0o777, *a, **k):
+    fs = _Installed.fs
+    if fs is not None and _is_sim(path):
+        return fs.os_open(os.fspath(path), flags, mode)
+    return _real_os_open(path, flags, mode, *a, **k)
+
+
+def _sim_os_close(fd):
+    fs = _Installed.fs
+    if fs is not None and fd in fs.fds:
+        del fs.fds[fd]
+        return None
+    return _real_os_close(fd)
 
 
 def install_fs(fs):
@@ -379,12 +484,24 @@ def install_fs(fs):
     _Installed.fs = fs
     builtins.open = _sim_open
     io.open = _sim_open
+    os.open = _sim_os_open
+    os.close = _sim_os_close
+    os.stat = _sim_os_stat
+    os.remove = os.unlink = _sim_os_remove
+    os.replace = os.rename = _sim_os_replace
 
 
 def uninstall_fs():
     _Installed.fs = None
     builtins.open = _real_open
     io.open = _real_io_open
+    os.open = _real_os_open
+    os.close = _real_os_close
+    os.stat = _real_os_stat
+    os.remove = _real_os_remove
+    os.unlink = _real_os_unlink
+    os.replace = _real_os_replace
+    os.rename = _real_os_rename
 
 
 def fs_installed_cleanly():
